@@ -628,7 +628,7 @@ def extract():
     k_heal = ix.find("src/commands/git_hook_handlers.rs", "maybe_spawn_repo_hook_self_heal")
     if not re.match(r"^if !is_repo_hooks_enabled\(repo\) \{ return; \}", PT.squash(ix.body(k_heal))):
         problems.append("maybe_spawn_repo_hook_self_heal: first statement is no longer the is_repo_hooks_enabled early return")
-    # Second entry into managed-hooks-mode code (bdec53b6): `ensure_repo_level_hooks_for_checkpoint` calls
+    # Second entry into managed-hooks-mode code (a1769f45): `ensure_repo_level_hooks_for_checkpoint` calls
     # `maybe_restore_stale_rebase_hooks` in front of the self-heal. It returns at once unless rebase_hook_mask_state.json exists, and
     # that file is written by `maybe_enable_rebase_hook_mask` only, which only the managed pre-rebase hook (`run_managed_hook`, never
     # reachable from handle_git) calls: in wrapper mode the sites behind it cannot execute. Each of these facts is checked here.
@@ -675,7 +675,7 @@ def extract():
                          ("managed_git_hooks_dir_for_repo", "repo_ai_dir")):
         if not re.fullmatch(base + r"\(repo\)\.join\([A-Z_]+\)", PT.squash(ix.body(ix.find(HH, helper)))):
             problems.append(f"{helper}: is no longer `{base}(repo).join(<constant>)`")
-    # review of the two sites of restore_rebase_hooks_for_repo = hooksDir: since /repo b9ba3919 the directory is always
+    # review of the two sites of restore_rebase_hooks_for_repo = hooksDir: since /repo b96235ca the directory is always
     # managed_git_hooks_dir_for_repo(repo) (the directory recorded in rebase_hook_mask_state.json is ignored) and only names in
     # MANAGED_GIT_HOOK_NAMES are joined to it — no assumption about the content of the state file is needed any more
     rb = PT.squash(ix.body(ix.find(HH, "restore_rebase_hooks_for_repo")))
